@@ -221,6 +221,15 @@ func genSplit(g *genCtx) {
 		}
 	}
 	if g.part == "limit" {
+		// exactly 255 full parts is the most a message may have; one unit more is refused - at every entry point
+		for _, p := range plans {
+			if p.req == 99 || p.req == 9 || p.req == 15 || p.req == 3 {
+				continue
+			}
+			for _, total := range []int{255 * p.per, 255*p.per + 1} {
+				emit(Case{"k": "split", "proto": p.proto, "req": p.req, "ref": 2, "text": planText(r, p, total, nil)})
+			}
+		}
 		// GB18030 texts in which every character takes two octets (hanzi, the euro sign): the even part size cannot cut one
 		for _, euros := range [][]int{{0}, {0, 1, 2}, {66}, {10, 70, 140}, {0, 67}, {}} {
 			for _, L := range []int{71, 150, 203} {
@@ -413,7 +422,12 @@ func runSplit(c Case, tr *Tracer) {
 			pdc = append(pdc, toPDC(proto, x))
 		}
 		ref := caseInt(c, "ref")
-		parts, actual, err := protocol.NewBatchDataCodingEncoder().Protocol(protocol.Protocol(proto)).Content(text, byte(ref)).DataCodings(pdc).Build(context.Background())
+		bb := protocol.NewBatchDataCodingEncoder().Protocol(protocol.Protocol(proto)).DataCodings(pdc)
+		if caseInt(c, "t")%2 == 0 {
+			// the builder has just served the same text under another reference (a re-send gets a reference of its own)
+			_, _, _ = bb.Content(text, byte(ref+1)).Build(context.Background())
+		}
+		parts, actual, err := bb.Content(text, byte(ref)).Build(context.Background())
 		if err != nil || actual == nil {
 			return
 		}
